@@ -49,6 +49,46 @@ class FuncRef:
         return "<fn %s>" % self.func.qname
 
 
+class RawRef(FuncRef):
+    """the function itself, underneath its decorators (what a decorator receives as its argument)"""
+    __slots__ = ()
+
+    def __repr__(self):
+        return "<raw fn %s>" % self.func.qname
+
+
+class StaticV:
+    """a Python scalar the interpreter itself knows (len(args), 'k' in kwargs, the constants a decorator factory was applied to):
+    wrapper code that re-packs *args / **kwargs is evaluated, not abstracted"""
+    __slots__ = ("value",)
+
+    def __init__(self, value):
+        self.value = value
+
+    def __repr__(self):
+        return "St(%r)" % (self.value,)
+
+
+class KwV:
+    """the **kwargs of one call: keyword names known, values abstract; insertion order = order at the call site"""
+    __slots__ = ("items", "persistent")
+
+    def __init__(self, items=None):
+        self.items = dict(items or {})
+        self.persistent = False
+
+    def __repr__(self):
+        return "Kw(%s)" % ", ".join("%s=%r" % kv for kv in self.items.items())
+
+
+class CodeV:
+    """f.__code__ of a repository function (signature introspection in decorators)"""
+    __slots__ = ("func",)
+
+    def __init__(self, func):
+        self.func = func
+
+
 class ClassRef:
     __slots__ = ("module", "name")
 
@@ -105,7 +145,8 @@ class SliceV:
         return "S(%r:%r:%r)" % (self.lower, self.upper, self.step)
 
 
-GENERIC = (TupleV, Closure, FuncRef, ClassRef, ExtRef, ObjV, BoundMethod, SuperV, SliceV)
+GENERIC = (TupleV, Closure, FuncRef, ClassRef, ExtRef, ObjV, BoundMethod, SuperV, SliceV, StaticV, KwV)
+ARGS = "args"           # kind of a TupleV whose length / items the interpreter computes with (varargs and what is derived from them)
 
 
 class Ctx:
@@ -132,6 +173,22 @@ class Summary:
     def __init__(self, ret, effects, raises):
         self.ret, self.effects, self.raises, self.state, self.used = ret, effects, raises, None, False
         self.params_out = {}       # value of each parameter variable at function exit (for in-place updates)
+
+
+class CallFormError(Inconclusive):
+    """the arguments of a call do not fit the callee's signature (Python raises TypeError)"""
+
+
+NOTSTATIC = object()
+# how an analysed *entry point* that carries decorators is called: the first CALL_FORM[0] parameters by position, the others by
+# keyword (in signature order, or reversed when CALL_FORM[1]); None = all by position.  Undecorated functions bind the same
+# way whatever the form, so the form only matters behind a wrapper that re-packs *args / **kwargs.
+CALL_FORM = [None, False]
+DECORATED_ENTRIES = {}     # qname -> number of parameters, for every decorated function analysed as an entry point
+
+
+def is_static(v):
+    return isinstance(v, (StaticV, KwV)) or (isinstance(v, TupleV) and v.kind == ARGS)
 
 
 ALL_INTERPS = []       # every interpreter built during one check (to know which functions the check analysed)
@@ -163,6 +220,13 @@ class Interp:
         self.call_sites = 0
         self.notes = []            # (qname, line, message): unmodelled constructs met
         self._module_ctx = {}
+        self._raw_once = None      # the next call of this function is the call of the undecorated function, made by its wrapper
+        self.decorated_ok = set()  # decorated functions whose decorators were applied by evaluating them
+        self.persistent_writes = []
+        self.raw_calls = {}        # qname -> [(args, kwargs)] : what the undecorated entry point was finally called with
+        self.force_interpret = set()
+        self._entry_bind = None
+        self.signature_mismatch = []
 
     # =================================================================== domain hooks
     def h_const(self, n, ctx):
@@ -246,6 +310,10 @@ class Interp:
     def h_bind(self, name, v, n, env, ctx):
         return v
 
+    def h_raw_entry_args(self, func, args, kwargs, n, ctx):
+        """the arguments with which the wrapper(s) of an analysed entry point finally call the function itself"""
+        return args, kwargs
+
     def h_test(self, tv, test, kind, env, ctx):
         """a value is used as a branch / loop / assert condition"""
 
@@ -309,8 +377,14 @@ class Interp:
             return ("C", id(v.node))
         if isinstance(v, PartialV):
             return ("PV", id(v.node))
+        if isinstance(v, RawRef):
+            return ("RF", v.func.qname)
         if isinstance(v, FuncRef):
             return ("F", v.func.qname)
+        if isinstance(v, StaticV):
+            return ("ST", repr(v.value))
+        if isinstance(v, KwV):
+            return ("KW",) + tuple((k, self.key(x)) for k, x in v.items.items())
         if isinstance(v, ExtRef):
             return ("E", v.dotted)
         if isinstance(v, ClassRef):
@@ -347,8 +421,12 @@ class Interp:
                 else:
                     at[k] = a.attrs.get(k, b.attrs.get(k))
             return ObjV(a.module, a.cls, at, a.tag)
-        if isinstance(a, (FuncRef, ExtRef, ClassRef, Closure, PartialV)) and self.key(a) == self.key(b):
+        if isinstance(a, (FuncRef, ExtRef, ClassRef, Closure, PartialV, StaticV)) and type(a) is type(b) and self.key(a) == self.key(b):
             return a
+        if isinstance(a, KwV) and isinstance(b, KwV) and list(a.items) == list(b.items):
+            return KwV({k: self.join_generic(a.items[k], b.items[k]) for k in a.items})
+        if isinstance(a, (StaticV, KwV)) or isinstance(b, (StaticV, KwV)):
+            return self.v_join(self.dom(a, None), self.dom(b, None))
         return self.v_join(a, b)
 
     def join_env(self, e1, e2):
@@ -398,6 +476,183 @@ class Interp:
             elif not self.v_same(e1[k], e2[k]):
                 return False
         return True
+
+    # =================================================================== the static world
+    # Wrappers (decorators) re-pack *args / **kwargs with tuple / dict operations; those are evaluated, not abstracted: the
+    # length of args, the names in kwargs and the constants a decorator factory was applied to are known to the interpreter.
+    def dom(self, v, ctx):
+        """hand a static value over to the abstract domain"""
+        if isinstance(v, StaticV):
+            return self.h_const(ast.Constant(value=v.value), ctx)
+        if isinstance(v, KwV):
+            return self.h_dict([self.h_const(ast.Constant(value=k), ctx) for k in v.items], [self.dom(x, ctx) for x in v.items.values()], None, ctx)
+        if isinstance(v, TupleV) and v.kind == ARGS:
+            return TupleV([self.dom(x, ctx) for x in v.items])
+        if isinstance(v, SliceV) and any(is_static(x) for x in (v.lower, v.upper, v.step)):
+            return SliceV(*[self.dom(x, ctx) if x is not None else None for x in (v.lower, v.upper, v.step)])
+        return v
+
+    def static_of(self, node, v):
+        """(known?, python value) of an evaluated expression: static values and literal constants"""
+        if isinstance(v, StaticV):
+            return True, v.value
+        if isinstance(node, ast.Constant):
+            return True, node.value
+        if isinstance(node, ast.UnaryOp) and isinstance(node.op, ast.USub) and isinstance(node.operand, ast.Constant) and isinstance(node.operand.value, (int, float)):
+            return True, -node.operand.value
+        return False, None
+
+    def static_truth(self, v):
+        if isinstance(v, StaticV):
+            return bool(v.value)
+        if isinstance(v, (KwV, TupleV)):
+            return bool(v.items)
+        return None
+
+    def fork_env(self, env):
+        """copy of an environment for one branch: the mutable static dicts are copied too (aliases stay aliases)"""
+        out, m = {}, {}
+        for k, v in env.items():
+            if isinstance(v, KwV):
+                if id(v) not in m:
+                    m[id(v)] = KwV(v.items)
+                    m[id(v)].persistent = v.persistent
+                out[k] = m[id(v)]
+            else:
+                out[k] = v
+        return out
+
+    def static_subscript(self, base, n, env, ctx):
+        sl = n.slice
+        if isinstance(sl, ast.Slice):
+            if not isinstance(base, TupleV):
+                return NOTSTATIC
+            bounds = []
+            for b in (sl.lower, sl.upper, sl.step):
+                if b is None:
+                    bounds.append(None)
+                    continue
+                ok, c = self.static_of(b, self.ev(b, env, ctx))
+                if not ok or not isinstance(c, int) or isinstance(c, bool):
+                    return NOTSTATIC
+                bounds.append(c)
+            return TupleV(base.items[slice(*bounds)], ARGS)
+        ok, c = self.static_of(sl, self.ev(sl, env, ctx))
+        if not ok:
+            return NOTSTATIC
+        if isinstance(base, TupleV) and isinstance(c, int) and not isinstance(c, bool):
+            if -len(base.items) <= c < len(base.items):
+                return base.items[c]
+            raise Inconclusive("index %d of a %d-tuple of arguments: IndexError in this call form" % (c, len(base.items)), n)
+        if isinstance(base, KwV) and isinstance(c, str):
+            if c in base.items:
+                return base.items[c]
+            raise Inconclusive("kwargs[%r]: KeyError in this call form" % c, n)
+        return NOTSTATIC
+
+    def kw_method(self, recv, attr, n, args, kwargs, env, ctx):
+        """dict methods on the keyword arguments of a call"""
+        def skey(i):
+            if i >= len(args):
+                return False, None
+            return self.static_of(n.args[i] if i < len(n.args) else None, args[i])
+        if attr in ("get", "pop", "setdefault"):
+            ok, k = skey(0)
+            if not ok or not isinstance(k, str):
+                raise Inconclusive("kwargs.%s with a key that is not a literal" % attr, n)
+            if k in recv.items:
+                v = recv.items[k]
+                if attr == "pop":
+                    self.kw_write(recv, n, ctx)
+                    del recv.items[k]
+                return v
+            if len(args) > 1:
+                if attr == "setdefault":
+                    self.kw_write(recv, n, ctx)
+                    recv.items[k] = args[1]
+                return args[1]
+            if attr == "pop":
+                raise Inconclusive("kwargs.pop(%r): KeyError in this call form" % k, n)
+            if attr == "setdefault":
+                self.kw_write(recv, n, ctx)
+                recv.items[k] = self.h_none(ctx)
+            return self.h_none(ctx)
+        if attr == "items" and not args:
+            return TupleV([TupleV([StaticV(k), v], ARGS) for k, v in recv.items.items()], ARGS)
+        if attr == "keys" and not args:
+            return TupleV([StaticV(k) for k in recv.items], ARGS)
+        if attr == "values" and not args:
+            return TupleV(list(recv.items.values()), ARGS)
+        if attr == "copy" and not args:
+            return KwV(recv.items)
+        if attr == "clear" and not args:
+            self.kw_write(recv, n, ctx)
+            recv.items.clear()
+            return self.h_none(ctx)
+        if attr == "update":
+            new = {}
+            for a in args:
+                pairs = self.static_pairs(a)
+                if pairs is None:
+                    raise Inconclusive("kwargs.update with an argument whose keys are not known", n)
+                new.update(pairs)
+            new.update(kwargs)
+            self.kw_write(recv, n, ctx)
+            recv.items.update(new)
+            return self.h_none(ctx)
+        return self.h_call_method(self.dom(recv, ctx), attr, n, [self.dom(a, ctx) for a in args], {k: self.dom(v, ctx) for k, v in kwargs.items()}, env, ctx)
+
+    def kw_write(self, recv, n, ctx):
+        """a dict that lives in a decorator's closure (built once, when the function is decorated) is written by a call"""
+        if recv.persistent:
+            self.persistent_writes.append((ctx.qname, getattr(n, "lineno", 0), norm(n)[:100]))
+
+    def static_pairs(self, v):
+        """{name: value} of a static mapping / sequence of (name, value) pairs"""
+        if isinstance(v, KwV):
+            return dict(v.items)
+        if isinstance(v, TupleV) and all(isinstance(x, TupleV) and len(x.items) == 2 and isinstance(x.items[0], StaticV) and isinstance(x.items[0].value, str)
+                                         for x in v.items):
+            return {x.items[0].value: x.items[1] for x in v.items}
+        return None
+
+    STATIC_BUILTINS = ("len", "tuple", "list", "dict", "zip", "sorted", "reversed", "enumerate", "bool")
+
+    def static_builtin(self, name, n, args, kwargs, ctx):
+        if kwargs or not args:
+            return NOTSTATIC
+        a = args[0]
+        if name == "len" and len(args) == 1:
+            if isinstance(a, (KwV, TupleV)):
+                return StaticV(len(a.items))
+            if isinstance(a, StaticV) and isinstance(a.value, str):
+                return StaticV(len(a.value))
+        if name == "bool" and len(args) == 1:
+            return StaticV(self.static_truth(a))
+        if name in ("tuple", "list") and len(args) == 1:
+            if isinstance(a, TupleV):
+                return TupleV(a.items, ARGS)
+            if isinstance(a, KwV):
+                return TupleV([StaticV(k) for k in a.items], ARGS)
+        if name == "dict" and len(args) == 1:
+            pairs = self.static_pairs(a)
+            if pairs is not None:
+                return KwV(pairs)
+        if name == "zip" and all(isinstance(x, TupleV) for x in args):
+            k = min(len(x.items) for x in args)
+            return TupleV([TupleV([x.items[i] for x in args], ARGS) for i in range(k)], ARGS)
+        if name == "reversed" and len(args) == 1 and isinstance(a, TupleV):
+            return TupleV(a.items[::-1], ARGS)
+        if name == "enumerate" and len(args) == 1 and isinstance(a, TupleV):
+            return TupleV([TupleV([StaticV(i), x], ARGS) for i, x in enumerate(a.items)], ARGS)
+        if name == "sorted" and len(args) == 1 and isinstance(a, TupleV):
+            def sk(x):
+                x = x.items[0] if isinstance(x, TupleV) and x.items else x
+                return x.value if isinstance(x, StaticV) else None
+            ks = [sk(x) for x in a.items]
+            if all(isinstance(k, str) for k in ks) or all(isinstance(k, (int, float)) for k in ks):
+                return TupleV([x for _, x in sorted(zip(ks, a.items), key=lambda kv: kv[0])], ARGS)
+        return NOTSTATIC
 
     # =================================================================== expressions
     def ev(self, n, env, ctx):
@@ -471,6 +726,23 @@ class Interp:
         return self.attr_of(v, n.attr, n, env, ctx)
 
     def attr_of(self, v, attr, n, env, ctx):
+        if isinstance(v, FuncRef) and attr in ("__name__", "__qualname__", "__code__", "__defaults__"):
+            f = v.func
+            if attr in ("__name__", "__qualname__"):
+                return StaticV(f.name)
+            if attr == "__code__":
+                return CodeV(f)
+            ds = [p_ for p_ in f.posparams if p_ in f.defaults]
+            if not ds:
+                return StaticV(None)
+            return TupleV([self.h_default(f, p_, f.defaults[p_], ctx) for p_ in ds], ARGS)
+        if isinstance(v, CodeV):
+            if attr == "co_argcount":
+                return StaticV(len(v.func.posparams))
+            if attr == "co_varnames":
+                rest = sorted(x for x in v.func.locals if x not in v.func.posparams and x not in v.func.kwonly)
+                return TupleV([StaticV(x) for x in list(v.func.posparams) + list(v.func.kwonly) + rest], ARGS)
+            raise Inconclusive("code object attribute .%s not modelled" % attr, n)
         if isinstance(v, ExtRef):
             return self.global_value(v.dotted + "." + attr, n, ctx)
         if isinstance(v, ObjV):
@@ -498,27 +770,95 @@ class Interp:
 
     def ev_Subscript(self, n, env, ctx):
         base = self.ev(n.value, env, ctx)
+        if is_static(base):
+            r = self.static_subscript(base, n, env, ctx)
+            if r is not NOTSTATIC:
+                return r
+            base = self.dom(base, ctx)
         idx = self.ev_slice(n.slice, env, ctx)
-        return self.h_subscript(base, idx, n, env, ctx)
+        return self.h_subscript(base, self.dom(idx, ctx), n, env, ctx)
 
     def ev_UnaryOp(self, n, env, ctx):
-        return self.h_unary(n.op, self.ev(n.operand, env, ctx), n, ctx)
+        v = self.ev(n.operand, env, ctx)
+        if is_static(v):
+            if isinstance(n.op, ast.Not):
+                return StaticV(not self.static_truth(v))
+            if isinstance(v, StaticV) and isinstance(v.value, (int, float)) and isinstance(n.op, (ast.USub, ast.UAdd)):
+                return StaticV(-v.value if isinstance(n.op, ast.USub) else v.value)
+            v = self.dom(v, ctx)
+        return self.h_unary(n.op, v, n, ctx)
 
     def ev_BoolOp(self, n, env, ctx):
-        return self.h_boolop(n.op, [self.ev(v, env, ctx) for v in n.values], n, ctx)
+        vals = [self.ev(v, env, ctx) for v in n.values]
+        if any(is_static(v) for v in vals):
+            if all(is_static(v) for v in vals):
+                for v in vals[:-1]:
+                    t = self.static_truth(v)
+                    if (isinstance(n.op, ast.Or) and t) or (isinstance(n.op, ast.And) and not t):
+                        return v
+                return vals[-1]
+            # a static operand that cannot be the result is dropped; the rest is the domain's business
+            keep = []
+            for i, v in enumerate(vals):
+                if is_static(v) and i < len(vals) - 1:
+                    t = self.static_truth(v)
+                    if (isinstance(n.op, ast.Or) and not t) or (isinstance(n.op, ast.And) and t):
+                        continue
+                    if not keep:
+                        return v        # decides the whole expression
+                keep.append(self.dom(v, ctx))
+            if len(keep) == 1:
+                return keep[0]
+            vals = keep
+        return self.h_boolop(n.op, vals, n, ctx)
+
+    _ARITH = {ast.Add: lambda a, b: a + b, ast.Sub: lambda a, b: a - b, ast.Mult: lambda a, b: a * b, ast.FloorDiv: lambda a, b: a // b,
+              ast.Mod: lambda a, b: a % b}
+    _CMP = {ast.Eq: lambda a, b: a == b, ast.NotEq: lambda a, b: a != b, ast.Lt: lambda a, b: a < b, ast.LtE: lambda a, b: a <= b,
+            ast.Gt: lambda a, b: a > b, ast.GtE: lambda a, b: a >= b, ast.Is: lambda a, b: a is b, ast.IsNot: lambda a, b: a is not b}
 
     def ev_BinOp(self, n, env, ctx):
-        return self.h_binop(n.op, self.ev(n.left, env, ctx), self.ev(n.right, env, ctx), n, ctx)
+        l, r = self.ev(n.left, env, ctx), self.ev(n.right, env, ctx)
+        if is_static(l) or is_static(r):
+            if isinstance(n.op, ast.Add) and isinstance(l, TupleV) and isinstance(r, TupleV):
+                return TupleV(list(l.items) + list(r.items), ARGS)
+            okl, cl = self.static_of(n.left, l)
+            okr, cr = self.static_of(n.right, r)
+            f = self._ARITH.get(type(n.op))
+            if okl and okr and f is not None and not (isinstance(n.op, ast.Mod) and isinstance(cl, str)):
+                try:
+                    return StaticV(f(cl, cr))
+                except Exception:
+                    pass
+            l, r = self.dom(l, ctx), self.dom(r, ctx)
+        return self.h_binop(n.op, l, r, n, ctx)
 
     def ev_Compare(self, n, env, ctx):
         vals = [self.ev(n.left, env, ctx)] + [self.ev(c, env, ctx) for c in n.comparators]
+        if len(n.ops) == 1 and any(is_static(v) for v in vals):
+            l, r = vals
+            op = n.ops[0]
+            okl, cl = self.static_of(n.left, l)
+            if isinstance(op, (ast.In, ast.NotIn)) and okl and (isinstance(r, KwV) or (isinstance(r, TupleV) and all(isinstance(x, StaticV) for x in r.items))):
+                inside = cl in (r.items if isinstance(r, KwV) else [x.value for x in r.items])
+                return StaticV(inside if isinstance(op, ast.In) else not inside)
+            okr, cr = self.static_of(n.comparators[0], r)
+            f = self._CMP.get(type(op))
+            if okl and okr and f is not None:
+                try:
+                    return StaticV(bool(f(cl, cr)))
+                except Exception:
+                    pass
+        vals = [self.dom(v, ctx) for v in vals]
         return self.h_compare(n.ops, vals, n, ctx)
 
     def ev_IfExp(self, n, env, ctx):
         tv = self.ev(n.test, env, ctx)
+        if is_static(tv):
+            return self.ev(n.body if self.static_truth(tv) else n.orelse, env, ctx)
         self.h_test(tv, n.test, "ifexp", env, ctx)
-        e1 = self.h_assume(tv, n.test, True, dict(env), ctx)
-        e2 = self.h_assume(tv, n.test, False, dict(env), ctx)
+        e1 = self.h_assume(tv, n.test, True, self.fork_env(env), ctx)
+        e2 = self.h_assume(tv, n.test, False, self.fork_env(env), ctx)
         ctx.pc.append((tv, n.test, None))
         try:
             bv = self.ev(n.body, e1, ctx) if e1 is not None else None
@@ -571,17 +911,79 @@ class Interp:
             return self.h_comp(kind, r[1], n, ctx, key=r[0])
         return self.h_comp(kind, r, n, ctx)
 
+    def static_rooted(self, node, env, ctx):
+        """can this expression evaluate to a static tuple / dict?  Only names, subscripts, attributes and a few builtins rooted
+        in a variable that holds a static value can - nothing else is evaluated twice (evaluation records facts / effects)."""
+        root = node
+        for _ in range(12):
+            if isinstance(root, ast.Call):
+                if isinstance(root.func, ast.Name) and root.func.id in ("zip", "enumerate", "reversed", "sorted", "tuple", "list") and root.args:
+                    root = root.args[0]
+                else:
+                    root = root.func
+            elif isinstance(root, (ast.Subscript, ast.Attribute)):
+                root = root.value
+            else:
+                break
+        if not isinstance(root, ast.Name):
+            return False
+        try:
+            rv = self.lookup_name(root.id, root, env, ctx)
+        except Inconclusive:
+            return False
+        return is_static(rv)
+
+    def _comp_static(self, n, env, ctx, kind):
+        """comprehension over a tuple the interpreter knows item by item (args[:n], kwargs.items(), ...): one element per item"""
+        if len(n.generators) != 1 or n.generators[0].is_async:
+            return NOTSTATIC
+        e = {"$outer": env}
+        for k, v in env.items():
+            if k.startswith("$") and k != "$outer":
+                e[k] = v
+        g = n.generators[0]
+        if not self.static_rooted(g.iter, e, ctx):
+            return NOTSTATIC
+        itv = self.ev(g.iter, e, ctx)
+        if isinstance(itv, KwV):
+            itv = TupleV([StaticV(k) for k in itv.items], ARGS)
+        if not (isinstance(itv, TupleV) and itv.kind == ARGS):
+            return NOTSTATIC
+        out = []
+        for item in itv.items:
+            self.assign(g.target, item, e, ctx, n)
+            keep = True
+            for c in g.ifs:
+                tv = self.ev(c, e, ctx)
+                if not is_static(tv):
+                    raise Inconclusive("comprehension over the arguments with a filter that is not decided", n)
+                keep = keep and self.static_truth(tv)
+            if keep:
+                out.append((self.ev(n.key, e, ctx), self.ev(n.value, e, ctx)) if kind == "dict" else self.ev(n.elt, e, ctx))
+        for k, v in e.items():
+            if k.startswith("$") and k != "$outer":
+                env[k] = v
+        if kind == "dict":
+            if all(isinstance(k, StaticV) and isinstance(k.value, str) for k, _ in out):
+                return KwV({k.value: v for k, v in out})
+            raise Inconclusive("dict comprehension over the arguments with keys that are not literals", n)
+        return TupleV(out, ARGS)
+
     def ev_ListComp(self, n, env, ctx):
-        return self._comp(n, env, ctx, "list")
+        r = self._comp_static(n, env, ctx, "list")
+        return r if r is not NOTSTATIC else self._comp(n, env, ctx, "list")
 
     def ev_SetComp(self, n, env, ctx):
-        return self._comp(n, env, ctx, "set")
+        r = self._comp_static(n, env, ctx, "set")
+        return r if r is not NOTSTATIC else self._comp(n, env, ctx, "set")
 
     def ev_GeneratorExp(self, n, env, ctx):
-        return self._comp(n, env, ctx, "gen")
+        r = self._comp_static(n, env, ctx, "gen")
+        return r if r is not NOTSTATIC else self._comp(n, env, ctx, "gen")
 
     def ev_DictComp(self, n, env, ctx):
-        return self._comp(n, env, ctx, "dict")
+        r = self._comp_static(n, env, ctx, "dict")
+        return r if r is not NOTSTATIC else self._comp(n, env, ctx, "dict")
 
     # ------------------------------------------------------------------- calls
     def ev_Call(self, n, env, ctx):
@@ -611,11 +1013,31 @@ class Interp:
         for k in n.keywords:
             v = self.ev(k.value, env, ctx)
             if k.arg is None:
-                kwargs["**"] = v
+                if isinstance(v, KwV):
+                    kwargs.update(v.items)
+                else:
+                    kwargs["**"] = v
             else:
                 kwargs[k.arg] = v
         if fv is _METHOD:
-            return self.h_call_method(recv, n.func.attr, n, args, kwargs, env, ctx)
+            if isinstance(recv, KwV):
+                return self.kw_method(recv, n.func.attr, n, args, kwargs, env, ctx)
+            return self.h_call_method(self.dom(recv, ctx) if isinstance(recv, StaticV) else recv, n.func.attr, n, [self.dom(a, ctx) for a in args],
+                                      {k: self.dom(v, ctx) for k, v in kwargs.items()}, env, ctx)
+        if isinstance(fv, ExtRef):
+            if fv.dotted in self.STATIC_BUILTINS and any(is_static(a) for a in args):
+                r = self.static_builtin(fv.dotted, n, args, kwargs, ctx)
+                if r is not NOTSTATIC:
+                    return r
+            if fv.dotted in ("functools.wraps", "functools.update_wrapper"):
+                return ExtRef("functools.wraps()")          # applied to the wrapper: the wrapper itself
+            if fv.dotted == "functools.wraps()" and len(args) == 1:
+                return args[0]
+            args = [self.dom(a, ctx) for a in args]
+            kwargs = {k: self.dom(v, ctx) for k, v in kwargs.items()}
+        elif not isinstance(fv, Closure):
+            args = [self.dom(a, ctx) if isinstance(a, StaticV) else a for a in args]
+            kwargs = {k: (self.dom(v, ctx) if isinstance(v, StaticV) else v) for k, v in kwargs.items()}
         return self.apply(fv, args, kwargs, n, env, ctx)
 
     def attr_of_callable(self, recv, attr, n, env, ctx):
@@ -626,6 +1048,14 @@ class Interp:
         return _METHOD
 
     def apply(self, fv, args, kwargs, n, env, ctx):
+        if isinstance(fv, RawRef):
+            f = fv.func
+            self._raw_once = f.qname
+            if f.is_method:
+                if not args or (isinstance(args[0], tuple) and len(args[0]) == 2 and args[0][0] == "*"):
+                    raise Inconclusive("undecorated method %s called without an explicit self" % f.qname, n)
+                return self.call_repo(f, args[0], args[1:], kwargs, n, env, ctx)
+            return self.call_repo(f, None, args, kwargs, n, env, ctx)
         if isinstance(fv, FuncRef):
             return self.call_repo(fv.func, None, args, kwargs, n, env, ctx)
         if isinstance(fv, BoundMethod):
@@ -660,20 +1090,24 @@ class Interp:
             bound[p] = a
         if len(pos) > len(posparams):
             if vararg:
-                bound[vararg] = self.h_seq("tuple", pos[len(posparams):], n, ctx)
+                bound[vararg] = TupleV(pos[len(posparams):], ARGS)
             else:
-                raise Inconclusive("too many positional arguments", n)
+                raise CallFormError("too many positional arguments", n)
         elif vararg:
-            bound[vararg] = self.h_seq("tuple", [], n, ctx)
+            bound[vararg] = TupleV([], ARGS)
+        if kwarg:
+            bound[kwarg] = KwV()
         for k, v in kwargs.items():
             if k == "**":
                 raise Inconclusive("**kwargs call not modelled", n)
             if k in posparams or k in getattr(func_like, "kwonly", ()):
+                if k in bound:
+                    raise CallFormError("argument %s given twice" % k, n)
                 bound[k] = v
             elif kwarg:
-                bound.setdefault(kwarg, {})
+                bound[kwarg].items[k] = v
             else:
-                raise Inconclusive("unexpected keyword argument %s" % k, n)
+                raise CallFormError("unexpected keyword argument %s" % k, n)
         for p in list(posparams) + list(getattr(func_like, "kwonly", ())):
             if p not in bound:
                 if p in defaults:
@@ -690,9 +1124,16 @@ class Interp:
         dmap = {}
         for p, d in zip(posparams[len(posparams) - nd:], a.defaults):
             dmap[p] = (lambda _p, d=d: self.ev(d, clo.env, clo.ctx))
-        bound = self.bind_args(node, posparams, dmap, a.vararg.arg if a.vararg else None,
-                               a.kwarg.arg if a.kwarg else None, args, kwargs, n, ctx,
-                               lambda p: self.h_missing_arg(_FakeFunc(node), p, n, ctx))
+        entry_bind, self._entry_bind = self._entry_bind, None
+        try:
+            bound = self.bind_args(_FakeFunc(node), posparams, dmap, a.vararg.arg if a.vararg else None,
+                                   a.kwarg.arg if a.kwarg else None, args, kwargs, n, ctx,
+                                   lambda p: self.h_missing_arg(_FakeFunc(node), p, n, ctx))
+        except CallFormError as e:
+            if entry_bind is not None:
+                # the outermost wrapper of an analysed entry point does not accept a call its function accepts
+                self.signature_mismatch.append((entry_bind, CALL_FORM[0], CALL_FORM[1], e.why, getattr(node, "lineno", 0)))
+            raise
         e = {"$outer": clo.env}
         for k, v in env.items():
             if k.startswith("$") and k != "$outer":
@@ -718,6 +1159,107 @@ class Interp:
         return r
 
     def call_repo(self, func, selfobj, args, kwargs, n, env, ctx):
+        """call of a repository function *by its name*: through its decorators, if it has any"""
+        if self._raw_once == func.qname:
+            self._raw_once = None
+            if func.qname in DECORATED_ENTRIES and func.qname + "@entry" in ctx.stack and not any(q == func.qname for q in ctx.stack):
+                self.raw_calls.setdefault(func.qname, []).append((list(args), dict(kwargs), CALL_FORM[0], CALL_FORM[1]))
+                args, kwargs = self.h_raw_entry_args(func, args, kwargs, n, ctx)
+                self.force_interpret.add(func.qname)
+                try:
+                    return self.call_repo_raw(func, selfobj, args, kwargs, n, env, ctx)
+                finally:
+                    self.force_interpret.discard(func.qname)
+            return self.call_repo_raw(func, selfobj, args, kwargs, n, env, ctx)
+        self._raw_once = None
+        if func.decorators:
+            return self.call_decorated(func, selfobj, args, kwargs, n, env, ctx)
+        return self.call_repo_raw(func, selfobj, args, kwargs, n, env, ctx)
+
+    STATELESS_VALUES = (ast.Constant, ast.Name, ast.Attribute, ast.Subscript, ast.BinOp, ast.UnaryOp, ast.Compare, ast.Tuple, ast.Lambda, ast.IfExp, ast.BoolOp)
+
+    def decorated_value(self, func, n, env, ctx):
+        """evaluate `@d1 @d2 def f` = d1(d2(f)): the callable bound to the function's name"""
+        dv = RawRef(func)
+        mctx = self.module_ctx(func.module)
+        for d in reversed(func.decorators):
+            if isinstance(d, ast.Call):
+                fac = self.ev(d.func, {}, mctx)
+                if isinstance(fac, FuncRef):
+                    self.force_interpret.add(fac.func.qname)
+                fargs = [StaticV(a.value) if isinstance(a, ast.Constant) else self.ev(a, {}, mctx) for a in d.args]
+                fkw = {k.arg: (StaticV(k.value.value) if isinstance(k.value, ast.Constant) else self.ev(k.value, {}, mctx)) for k in d.keywords}
+                if any(k is None for k in fkw):
+                    raise Inconclusive("decorator factory called with **kwargs", d)
+                decf = self.apply(fac, fargs, fkw, d, env, ctx)
+            else:
+                decf = self.ev(d, {}, mctx)
+            if not isinstance(decf, (FuncRef, Closure)):
+                raise Inconclusive("decorator %s is not a function defined in the repository" % norm(d)[:60], d)
+            if isinstance(decf, FuncRef):
+                self.force_interpret.add(decf.func.qname)
+            dv = self.apply(decf, [dv], {}, d, env, ctx)
+            if not isinstance(dv, (Closure, FuncRef)):
+                raise Inconclusive("decorator %s does not return a function the analysis can follow" % norm(d)[:60], d)
+            if isinstance(dv, Closure):
+                self.mark_persistent(dv, d)
+        return dv
+
+    def mark_persistent(self, clo, d):
+        """objects built while the function is being decorated live as long as the module: a dict in the wrapper's closure is
+        shared by all calls.  Static dicts are tracked (writes are recorded); any other mutable closure state is not modelled."""
+        e = clo.env
+        seen = 0
+        while e is not None and seen < 8:
+            for k, v in e.items():
+                if isinstance(v, KwV):
+                    v.persistent = True
+            e = e.get("$outer")
+            seen += 1
+        # the decorator's own body: anything but definitions, constants and the return of the wrapper is state
+        owner = clo.ctx.func if clo.ctx is not None else None
+        if owner is not None:
+            for st in owner.node.body:
+                if isinstance(st, (ast.FunctionDef, ast.Return, ast.Pass)) or (isinstance(st, ast.Expr) and isinstance(st.value, ast.Constant)):
+                    continue
+                if isinstance(st, ast.Assign) and (isinstance(st.value, self.STATELESS_VALUES) or self._static_call(st.value)):
+                    continue
+                raise Inconclusive("the decorator %s keeps state between calls (%s): not modelled" % (owner.qname, norm(st)[:60]), st)
+
+    def _static_call(self, v):
+        """dict(zip(names, defaults)) and the like: evaluated into a tracked static dict / tuple"""
+        return isinstance(v, ast.Call) and isinstance(v.func, ast.Name) and v.func.id in ("dict", "tuple", "zip", "len", "sorted")
+
+    def call_decorated(self, func, selfobj, args, kwargs, n, env, ctx):
+        eb, self._entry_bind = self._entry_bind, None       # decorators are applied first; only the call of the result is the entry call
+        dv = self.decorated_value(func, n, env, ctx)
+        self._entry_bind = eb if isinstance(dv, Closure) else None
+        self.decorated_ok.add(func.qname)
+        a2 = ([selfobj] if func.is_method and selfobj is not None else []) + list(args)
+        return self.apply(dv, a2, kwargs, n, env, ctx)
+
+    def enter(self, func, selfobj, bound, env, ctx, n=None):
+        """analyse a decorated function as an entry point: the caller's arguments go through the wrapper, in the current call form"""
+        params = [p_ for p_ in func.params if p_ in bound]
+        DECORATED_ENTRIES[func.qname] = len(params)
+        k = len(params) if CALL_FORM[0] is None else min(CALL_FORM[0], len(params))
+        args = [bound[p_] for p_ in params[:k]]
+        kws = params[k:][::-1] if CALL_FORM[1] else params[k:]
+        kwargs = {p_: bound[p_] for p_ in kws}
+        if func.vararg and func.vararg in bound or func.kwarg and func.kwarg in bound:
+            pass        # *args / **kwargs of the entry point itself: called without extra arguments
+        sub = Ctx(func, func.module, func.cls, ctx.stack + (func.qname + "@entry",), parent=ctx)
+        sub.self_obj = selfobj
+        self._entry_bind = func.qname
+        try:
+            r = self.call_decorated(func, selfobj, args, kwargs, n or func.node, env, sub)
+        finally:
+            self._entry_bind = None
+        summ = Summary(r, list(sub.effects), list(sub.raises))
+        summ.state = self._state_only(env)
+        return summ
+
+    def call_repo_raw(self, func, selfobj, args, kwargs, n, env, ctx):
         posparams = func.posparams[1:] if func.is_method else func.posparams
         dmap = {p: (lambda _p, func=func: self.h_default(func, _p, func.defaults[_p], ctx)) for p in func.defaults}
         bound = self.bind_args(func, posparams, dmap, func.vararg, func.kwarg, args, kwargs, n, ctx,
@@ -734,6 +1276,8 @@ class Interp:
         return tuple(sorted((k, repr(v)) for k, v in env.items() if k.startswith("$") and k not in ("$outer", "$mu")))
 
     def summary(self, func, selfobj, bound, env, ctx, n=None):
+        if func.decorators and ctx.func is None and not ctx.stack:
+            return self.enter(func, selfobj, bound, env, ctx, n)      # an entry point with decorators: analysed through them
         key = (func.qname, self.key(selfobj) if selfobj is not None else None,
                tuple((p, self.key(v)) for p, v in sorted(bound.items())), self.state_key(env))
         if key in self.memo:
@@ -837,6 +1381,10 @@ class Interp:
         return env
 
     def st_FunctionDef(self, s, env, ctx):
+        for d in s.decorator_list:
+            dn = dotted_of(d.func if isinstance(d, ast.Call) else d) or ""
+            if dn.split(".")[-1] != "wraps":
+                raise Inconclusive("decorator @%s on the nested function %s not modelled" % (dn, s.name), s)
         env[s.name] = Closure(s, env, ctx)
         return env
 
@@ -982,9 +1530,11 @@ class Interp:
 
     def st_If(self, s, env, ctx):
         tv = self.ev(s.test, env, ctx)
+        if is_static(tv):
+            return self.exec_block(s.body if self.static_truth(tv) else s.orelse, env, ctx)
         self.h_test(tv, s.test, "if", env, ctx)
-        e1 = self.h_assume(tv, s.test, True, dict(env), ctx)
-        e2 = self.h_assume(tv, s.test, False, dict(env), ctx)
+        e1 = self.h_assume(tv, s.test, True, self.fork_env(env), ctx)
+        e2 = self.h_assume(tv, s.test, False, self.fork_env(env), ctx)
         ctx.pc.append((tv, s.test, True))
         try:
             o1 = self.exec_block(s.body, e1, ctx) if e1 is not None else None
@@ -994,7 +1544,37 @@ class Interp:
             ctx.pc.pop()
         return self.join_env(o1, o2)
 
+    def _unrolled(self, s, items, env, ctx):
+        """for-loop over a tuple the interpreter knows item by item (*args, kwargs.items(), zip(names, args), ...)"""
+        ctx.loops.append({"breaks": [], "conts": []})
+        cur, brk = env, None
+        try:
+            for item in items:
+                if cur is None:
+                    break
+                lp = ctx.loops[-1]
+                lp["conts"] = []
+                body_env = self.fork_env(cur)
+                self.assign(s.target, item, body_env, ctx, s)
+                out = self.exec_block(s.body, body_env, ctx)
+                for c in lp["conts"]:
+                    out = self.join_env(out, c)
+                cur = out
+            for b in ctx.loops[-1]["breaks"]:
+                brk = self.join_env(brk, b)
+        finally:
+            ctx.loops.pop()
+        if s.orelse and cur is not None:
+            cur = self.exec_block(s.orelse, cur, ctx)
+        return self.join_env(cur, brk)
+
     def _loop(self, s, env, ctx, is_for):
+        if is_for and self.static_rooted(s.iter, env, ctx):
+            itv0 = self.ev(s.iter, env, ctx)
+            if isinstance(itv0, KwV):
+                itv0 = TupleV([StaticV(k) for k in itv0.items], ARGS)
+            if isinstance(itv0, TupleV) and itv0.kind == ARGS:
+                return self._unrolled(s, list(itv0.items), env, ctx)
         ctx.loops.append({"breaks": [], "conts": []})
         cur = env
         exit_env = None
@@ -1075,6 +1655,7 @@ class Interp:
     def st_Try(self, s, env, ctx):
         before = dict(env)
         nr = len(ctx.raises)
+        nrets = len(ctx.rets)
         body_out = self.exec_block(s.body, env, ctx)
         raised = ctx.raises[nr:]
         caught, kept = self.split_caught(raised, s.handlers, ctx)
@@ -1094,6 +1675,15 @@ class Interp:
                 he[h.name] = self.h_exc_var(h, he, ctx)
             ho = self.exec_block(h.body, he, ctx)
             out = self.join_env(out, ho)
+        if s.finalbody:
+            # `finally` also runs on the way out of a `return` inside the try statement
+            for i in range(nrets, len(ctx.rets)):
+                v, node, renv = ctx.rets[i]
+                k = len(ctx.rets)
+                fe = self.exec_block(s.finalbody, self.fork_env(renv), ctx)
+                del ctx.rets[k:]           # a return inside `finally` itself is not modelled separately
+                if fe is not None:
+                    ctx.rets[i] = (v, node, fe)
         if s.finalbody and out is not None:
             out = self.exec_block(s.finalbody, out, ctx)
         return out
@@ -1126,6 +1716,7 @@ _METHOD = object()
 class _FakeFunc:
     def __init__(self, node):
         self.qname = "<lambda@%d>" % node.lineno
+        self.kwonly = [x.arg for x in node.args.kwonlyargs]
 
 
 def exc_type_name(raise_node):
